@@ -77,6 +77,8 @@ class Ctx:
         self.budget_hit = False
         self._scratch_root = scratch_root
         self._scratch = None
+        self._ckpt_path = None
+        self._last_ckpt = time.time()
 
     # ---- scratch -----------------------------------------------------------
     @property
@@ -106,6 +108,8 @@ class Ctx:
         """record one oracle evaluation. `key` (str) identifies the case for the distinct count
         (default: canonical JSON of the case)."""
         self.evaluations += n
+        if self._ckpt_path is not None and time.time() - self._last_ckpt > 5:
+            self.checkpoint()
         for c in classes:
             self.classes[c] += 1
         if nontrivial:
@@ -138,6 +142,19 @@ class Ctx:
 
     def note(self, k, v):
         self.notes[k] = v
+
+    def checkpoint(self):
+        """dump the results so far; the runner picks them up if this task has to be abandoned"""
+        import pickle
+
+        self._last_ckpt = time.time()
+        try:
+            tmp = self._ckpt_path + ".tmp"
+            with open(tmp, "wb") as f:
+                pickle.dump(self.result(), f)
+            os.replace(tmp, self._ckpt_path)
+        except OSError:
+            pass
 
     # ---- result transport --------------------------------------------------
     def result(self):
